@@ -439,6 +439,23 @@ func TerminationCerts(p *Program, rels []string) []Cert {
 				// a lower bound must exist somewhere on the cycle: the caller has a guard
 				g2, fact2 := depthGuarded(e.site, e.from, -1<<40)
 				if !g2 {
+					// a helper extracted from a guarded function: every call into it hands the
+					// caller's depth over unchanged from behind the caller's guard
+					nIn, allGuarded := 0, true
+					for _, e2 := range edges {
+						if e2.to != e.from {
+							continue
+						}
+						nIn++
+						if gg, _ := depthGuarded(e2.site, e2.from, -1<<40); e2.d != "D=" || !gg {
+							allGuarded = false
+						}
+					}
+					if nIn > 0 && allGuarded {
+						g2, fact2 = true, " (guarded at every call of "+FuncName(e.from)+", which passes the depth on unchanged)"
+					}
+				}
+				if !g2 {
 					problems = append(problems, desc+": the recursive call is not dominated by a depth guard (depth <= c returns)")
 				}
 				ct.Edges = append(ct.Edges, desc+" guard: "+fact+fact2)
